@@ -52,26 +52,106 @@ func (q PathQuery) Reaches(b *ssa.BasicBlock, idx int, target func(ssa.Instructi
 		}
 		return n
 	}
+	// what is known about the results of the inlined calls that returned on this path (constant booleans, nil /
+	// non-nil): the branch that tests such a result in the caller is followed on the matching edge only
+	type fact struct {
+		site *ssa.Call
+		idx  int
+		kind resultFact
+		up   *fact
+	}
+	type factKey struct {
+		site *ssa.Call
+		idx  int
+		kind resultFact
+		up   *fact
+	}
+	factsTab := map[factKey]*fact{}
+	addFact := func(site *ssa.Call, idx int, kind resultFact, up *fact) *fact {
+		k := factKey{site, idx, kind, up}
+		if f, ok := factsTab[k]; ok {
+			return f
+		}
+		f := &fact{site, idx, kind, up}
+		factsTab[k] = f
+		return f
+	}
+	var dropFacts func(f *fact, site *ssa.Call) *fact
+	dropFacts = func(f *fact, site *ssa.Call) *fact {
+		if f == nil {
+			return nil
+		}
+		up := dropFacts(f.up, site)
+		if f.site == site {
+			return up
+		}
+		return addFact(f.site, f.idx, f.kind, up)
+	}
+	lookup := func(f *fact, v ssa.Value) (resultFact, bool) {
+		var site *ssa.Call
+		idx := 0
+		switch x := v.(type) {
+		case *ssa.Extract:
+			c, ok := x.Tuple.(*ssa.Call)
+			if !ok {
+				return 0, false
+			}
+			site, idx = c, x.Index
+		case *ssa.Call:
+			site = x
+		default:
+			return 0, false
+		}
+		for ; f != nil; f = f.up {
+			if f.site == site && f.idx == idx {
+				return f.kind, true
+			}
+		}
+		return 0, false
+	}
+	// feasible: may the edge (succ 0 = true) of an If with this condition be taken given the facts?
+	feasible := func(f *fact, cond ssa.Value, succ int) bool {
+		if f == nil {
+			return true
+		}
+		v, neg := StripNot(cond)
+		if k, ok := lookup(f, v); ok && (k == factTrue || k == factFalse) {
+			val := k == factTrue
+			if neg {
+				val = !val
+			}
+			return (succ == 0) == val
+		}
+		if x, nilOnTrue, ok := NilTest(cond); ok {
+			if k, ok := lookup(f, x); ok && (k == factNil || k == factNonNil) {
+				isNil := k == factNil
+				return (succ == 0) == (isNil == nilOnTrue)
+			}
+		}
+		return true
+	}
 	type item struct {
 		b     *ssa.BasicBlock
 		idx   int
 		stack *frame
+		facts *fact
 		prev  *item
 	}
 	type pos struct {
 		b     *ssa.BasicBlock
 		idx   int
 		stack *frame
+		facts *fact
 	}
 	seen := map[pos]bool{}
-	work := []*item{{b, idx, nil, nil}}
-	push := func(nb *ssa.BasicBlock, ni int, st *frame, prev *item) {
-		k := pos{nb, ni, st}
+	work := []*item{{b, idx, nil, nil, nil}}
+	push := func(nb *ssa.BasicBlock, ni int, st *frame, fc *fact, prev *item) {
+		k := pos{nb, ni, st, fc}
 		if seen[k] {
 			return
 		}
 		seen[k] = true
-		work = append(work, &item{nb, ni, st, prev})
+		work = append(work, &item{nb, ni, st, fc, prev})
 	}
 	for len(work) > 0 {
 		it := work[0]
@@ -92,21 +172,34 @@ func (q PathQuery) Reaches(b *ssa.BasicBlock, idx int, target func(ssa.Instructi
 			}
 			if h := InlinedCallee(in); h != nil && depth(it.stack) < 6 {
 				// the instructions after the call are reached from the callee's returns
-				push(h.Blocks[0], 0, pushFrame(in.(*ssa.Call), it.stack), it)
+				site := in.(*ssa.Call)
+				push(h.Blocks[0], 0, pushFrame(site, it.stack), dropFacts(it.facts, site), it)
 				stopped = true
 				break
 			}
 			if ret, ok := in.(*ssa.Return); ok && IsInlined(ret.Parent()) {
 				if it.stack != nil && InlinedCallee(it.stack.site) == ret.Parent() {
 					s := it.stack.site
-					push(s.Block(), InstrIndex(s)+1, it.stack.up, it)
+					fc := it.facts
+					for ri, k := range returnFacts(ret) {
+						if k != factNone {
+							fc = addFact(s, ri, k, fc)
+						}
+					}
+					push(s.Block(), InstrIndex(s)+1, it.stack.up, fc, it)
 				} else {
 					// the walk started inside the callee: it may have been entered from any of its sites
 					for _, s := range InlineSites(ret.Parent()) {
 						if q.Root != nil && !InBody(q.Root, s.Parent()) {
 							continue
 						}
-						push(s.Block(), InstrIndex(s)+1, nil, it)
+						fc := it.facts
+						for ri, k := range returnFacts(ret) {
+							if k != factNone {
+								fc = addFact(s, ri, k, fc)
+							}
+						}
+						push(s.Block(), InstrIndex(s)+1, nil, fc, it)
 					}
 				}
 				stopped = true
@@ -116,14 +209,110 @@ func (q PathQuery) Reaches(b *ssa.BasicBlock, idx int, target func(ssa.Instructi
 		if stopped {
 			continue
 		}
+		var cond ssa.Value
+		if it.facts != nil && len(it.b.Instrs) > 0 {
+			if iff, ok := it.b.Instrs[len(it.b.Instrs)-1].(*ssa.If); ok {
+				cond = iff.Cond
+			}
+		}
 		for si, s := range it.b.Succs {
 			if q.SkipEdge != nil && q.SkipEdge(it.b, si) {
 				continue
 			}
-			push(s, 0, it.stack, it)
+			if cond != nil && !feasible(it.facts, cond, si) {
+				continue
+			}
+			push(s, 0, it.stack, it.facts, it)
 		}
 	}
 	return false, nil
+}
+
+// resultFact is what a return instruction of an inlined callee tells about one of its results.
+type resultFact int
+
+const (
+	factNone resultFact = iota
+	factTrue
+	factFalse
+	factNil
+	factNonNil
+)
+
+var returnFactCache = map[*ssa.Return][]resultFact{}
+
+// returnFacts: per result of ret, a constant boolean, the nil constant, or "non-nil" when the returned value is one
+// that the callee itself tested against nil on the way to this return (if err != nil { return ..., err }).
+func returnFacts(ret *ssa.Return) []resultFact {
+	if f, ok := returnFactCache[ret]; ok {
+		return f
+	}
+	vals := ReturnValues(ret)
+	out := make([]resultFact, len(vals))
+	returnFactCache[ret] = out // also guards against re-entrance
+	var guards []Guard
+	haveGuards := false
+	for i, v := range vals {
+		if b, ok := ConstBool(v); ok {
+			if b {
+				out[i] = factTrue
+			} else {
+				out[i] = factFalse
+			}
+			continue
+		}
+		if IsNilConst(v) {
+			out[i] = factNil
+			continue
+		}
+		if _, isIface := v.Type().Underlying().(*types.Interface); !isIface {
+			if _, isPtr := v.Type().Underlying().(*types.Pointer); !isPtr {
+				continue
+			}
+		}
+		// freshly made values: fmt.Errorf / errors.New results, allocations
+		fresh := true
+		os := Origins(v)
+		for _, o := range os {
+			switch x := o.(type) {
+			case *ssa.Call:
+				if k := CalleeKey(x); k != "fmt.Errorf" && k != "errors.New" {
+					fresh = false
+				}
+			case *ssa.Alloc:
+			default:
+				fresh = false
+			}
+		}
+		if fresh && len(os) > 0 {
+			out[i] = factNonNil
+			continue
+		}
+		if !haveGuards {
+			WithoutInlining(func() { guards = GuardsOf(ret) })
+			haveGuards = true
+		}
+		for _, g := range guards {
+			x, nilOnTrue, ok := NilTest(g.If.Cond)
+			if !ok || nilOnTrue == g.CondTrue() {
+				continue // not a nil test, or the nil outcome
+			}
+			same := x == v
+			if !same {
+				for _, o := range Origins(x) {
+					if HasOrigin(v, o) {
+						if _, isConst := o.(*ssa.Const); !isConst {
+							same = true
+						}
+					}
+				}
+			}
+			if same {
+				out[i] = factNonNil
+			}
+		}
+	}
+	return out
 }
 
 func isInstr(x ssa.Instruction) func(ssa.Instruction) bool {
@@ -384,14 +573,63 @@ func GuardsOf(x ssa.Instruction) []Guard {
 	return out
 }
 
+// Atom is an elementary condition known to hold (True) or not on every path to an instruction.
+type Atom struct {
+	Cond ssa.Value
+	True bool
+	If   *ssa.If
+}
+
+// atomsOf decomposes the outcome `val` of condition cond: "a && b" being true makes a and b true, "a || b" being
+// false makes both false (go/ssa compiles these to a phi over constant and right-hand-side edges).
+func atomsOf(cond ssa.Value, val bool, iff *ssa.If, depth int) []Atom {
+	v, neg := StripNot(cond)
+	if neg {
+		val = !val
+	}
+	ph, ok := v.(*ssa.Phi)
+	if !ok || depth > 4 || (ph.Comment != "&&" && ph.Comment != "||") {
+		return []Atom{{v, val, iff}}
+	}
+	and := ph.Comment == "&&"
+	if and != val {
+		// "a && b" false / "a || b" true: nothing is known about the operands individually
+		return []Atom{{v, val, iff}}
+	}
+	var out []Atom
+	for i, e := range ph.Edges {
+		if b, isC := ConstBool(e); isC && b != and {
+			// short-circuit edge: the predecessor's own condition decided; on this outcome it did not short-circuit
+			if i < len(ph.Block().Preds) {
+				pred := ph.Block().Preds[i]
+				if pi, ok := pred.Instrs[len(pred.Instrs)-1].(*ssa.If); ok {
+					out = append(out, atomsOf(pi.Cond, and, pi, depth+1)...)
+				}
+			}
+			continue
+		}
+		out = append(out, atomsOf(e, val, iff, depth+1)...)
+	}
+	return out
+}
+
+// GuardAtoms lists the elementary conditions that hold on every path to x (guards with && / || taken apart).
+func GuardAtoms(x ssa.Instruction) []Atom {
+	var out []Atom
+	for _, g := range GuardsOf(x) {
+		out = append(out, atomsOf(g.If.Cond, g.CondTrue(), g.If, 0)...)
+	}
+	return out
+}
+
 // GuardedByErrNil: x executes only when the error result of call c was tested and found nil.
 func GuardedByErrNil(x ssa.Instruction, c *ssa.Call) bool {
-	for _, g := range GuardsOf(x) {
-		v, nilOnTrue, ok := NilTest(g.If.Cond)
+	for _, a := range GuardAtoms(x) {
+		v, nilOnTrue, ok := NilTest(a.Cond)
 		if !ok {
 			continue
 		}
-		if nilOnTrue != g.CondTrue() {
+		if nilOnTrue != a.True {
 			continue // this edge is the non-nil outcome
 		}
 		for _, oc := range OriginCalls(v) {
@@ -406,16 +644,11 @@ func GuardedByErrNil(x ssa.Instruction, c *ssa.Call) bool {
 // GuardedByBoolCall: x executes only on the outcome `want` of a boolean call
 // whose callee key is one of keys (optionally negated in source).
 func GuardedByBoolCall(x ssa.Instruction, want bool, keys ...string) bool {
-	for _, g := range GuardsOf(x) {
-		v, neg := StripNot(g.If.Cond)
-		val := g.CondTrue()
-		if neg {
-			val = !val
-		}
-		if val != want {
+	for _, a := range GuardAtoms(x) {
+		if a.True != want {
 			continue
 		}
-		for _, oc := range OriginCalls(v) {
+		for _, oc := range OriginCalls(a.Cond) {
 			if CalleeIs(oc, keys...) {
 				return true
 			}
@@ -426,19 +659,14 @@ func GuardedByBoolCall(x ssa.Instruction, want bool, keys ...string) bool {
 
 // GuardedByValue: x executes only when boolean value p (e.g. a parameter) has value want.
 func GuardedByValue(x ssa.Instruction, p ssa.Value, want bool) bool {
-	for _, g := range GuardsOf(x) {
-		v, neg := StripNot(g.If.Cond)
-		val := g.CondTrue()
-		if neg {
-			val = !val
-		}
-		if val != want {
+	for _, a := range GuardAtoms(x) {
+		if a.True != want {
 			continue
 		}
-		if v == p {
+		if a.Cond == p {
 			return true
 		}
-		for _, o := range Origins(v) {
+		for _, o := range Origins(a.Cond) {
 			if o == p {
 				return true
 			}
@@ -591,12 +819,12 @@ func EqTest(cond ssa.Value) (a, b ssa.Value, eqOnTrue bool, ok bool) {
 // GuardedByEq: x executes only on the outcome "equal == want" of a comparison
 // whose operands satisfy pa and pb (in either order).
 func GuardedByEq(x ssa.Instruction, want bool, pa, pb func(ssa.Value) bool) bool {
-	for _, g := range GuardsOf(x) {
-		a, b, eqOnTrue, ok := EqTest(g.If.Cond)
+	for _, at := range GuardAtoms(x) {
+		a, b, eqOnTrue, ok := EqTest(at.Cond)
 		if !ok {
 			continue
 		}
-		isEq := eqOnTrue == g.CondTrue()
+		isEq := eqOnTrue == at.True
 		if isEq != want {
 			continue
 		}
